@@ -46,4 +46,20 @@ MinerNext ==
      \/ \E d \in {ltip} : ptr # ltip /\ Walk(d, FALSE, {"*"}, <<>>)
      \/ \E b \in RandomSubset(1, {0}) : Restart
 MinerSpec == Init /\ [][MinerNext]_vars
+(* C17 profile: grow a chain well beyond the window, fork it within the last Window + 1 blocks, walk between the
+   branches (also to lower side blocks, across the irreversible height, with the prune flag) and restart *)
+NearTip == {p \in Anc(ltip) : Height(p) + Window + 1 >= LHeight}
+FinNext ==
+  /\ Len(hist) < MaxOps
+  /\ \/ \E x \in {0, 1} : n < MaxBlocks /\ \E seq \in RandomSubset(1, ValidSeqs(ltip)) : NewBlock(ltip, seq)
+     \/ (ptr # ltip /\ Walk(ltip, FALSE, {"*"}, <<>>))
+     \/ (ptr # ltip /\ Walk(ltip, FALSE, {"*"}, <<>>))
+     \/ \E b \in {c \in 2..n : Parent(c) = ptr} : Play(b, "*")
+     \/ (ptr = ltip /\ Mine(PrefixFits(GoodOrder(Packable))))
+     \/ \E t \in RandomSubset(1, {t \in Txs : t \notin pool /\ Valid(St, t, LHeight)}) : Submit(t, "*")
+     \/ (LHeight >= Window + 1 /\ n < MaxBlocks /\ \E p \in RandomSubset(1, NearTip) : \E seq \in RandomSubset(1, ValidSeqs(p)) : NewBlock(p, seq))
+     \/ (LHeight >= Window + 1 /\ \E d \in RandomSubset(2, 1..n) : Walk(d, FALSE, {"*"}, <<>>))
+     \/ (LHeight >= Window + 2 /\ \E d \in RandomSubset(1, 1..n) : Walk(d, TRUE, {"*"}, <<>>))
+     \/ \E x \in RandomSubset(1, {0}) : Restart
+FinSpec == Init /\ [][FinNext]_vars
 =============================================================================
